@@ -97,13 +97,15 @@ def judge_cases(res, cases, clause_prefixes, nontrivial_fn, known, sample_every=
         if c.tag:
             res.count("tag:" + c.tag.split("+")[0])
         res.count("obs:" + c.obs.split(" ", 1)[0])
+        explained = False
         if mine:
             k = known_match(res.pid, mine, c.line, c.obs, known)
             if k:
                 res.known_hits.setdefault(k["id"], (k, c))
+                explained = True      # the disagreement on this case is the known finding itself
             else:
                 failing.append((c, mine))
-        if not c.agree:
+        if not c.agree and not explained:
             disagree.append(c)
     res.disagreements += len(disagree)
     return failing, disagree
